@@ -167,6 +167,7 @@ Definition d_worker_workerfinished (n : nat) (sk : stopkind) : D unit :=
   match sk with
   | SKKbd =>
       (d <- get ;; put (d_set_shouldstop d true)) ;;;
+      d_triggershutdown ;;;          (* the others are told first: nothing is re-scheduled to them *)
       d_worker_errordown n
   | SKStop =>
       (d <- get ;; if d_shouldstop d then ret tt else put (d_set_shouldstop d true)) ;;;
